@@ -33,7 +33,8 @@ def generate(chk, limit=None, variant=""):
     """variant "": MTU 600, the server flight leaves in three datagrams; "m400": MTU 400, four datagrams (an acknowledgement can
     then cover whole messages only while another whole message is still missing)."""
     out, seen = [], set()
-    shapes = ("gena", "genb") if not variant else (("gena",) if chk.quick else ("gena", "genb"))
+    # m400 genc: two losses, no reordering - e.g. both Certificate datagrams lost while the rest of the flight arrives
+    shapes = ("gena", "genb") if not variant else (("gena", "genc") if chk.quick else ("gena", "genb"))
     for shape in shapes:
         cfg = "Handshake13F.%s%s.%s.cfg" % (variant + "." if variant else "", shape, chk.tier)
         gen = vlib.tlc_generate(MODULE, cfg, timeout=2400)
